@@ -111,9 +111,10 @@ EvEmit(name, n, sleep, k, err, stop, cause, ra, op, t) ==
     EvEmitD(name, n, sleep, k, err, stop, cause, ra, op, 0, t)
 EvHandler(n, sleep, dec, t) == [e |-> "handler", n |-> n, sleep |-> sleep, dec |-> dec, t |-> t]
 EvBSleep(sleep, f, t) == [e |-> "bsleep", sleep |-> sleep, fault |-> f, t |-> t]
-\* us: the requested sleep in microseconds (1 tick = 15625 us), so that a delay which is
-\* not a whole number of ticks can still be judged against the remaining time
-EvSleep(s, adv, t, t1) == [e |-> "sleep", s |-> s, us |-> s * 15625, adv |-> adv, t |-> t, t1 |-> t1]
+\* ut, us: the requested sleep in microseconds as whole ticks plus a remainder (1 tick = 15625 us;
+\* TLC's integers are 32 bit), so that a delay which is not a whole number of ticks can still be
+\* judged against the remaining time
+EvSleep(s, adv, t, t1) == [e |-> "sleep", s |-> s, ut |-> s, us |-> 0, adv |-> adv, t |-> t, t1 |-> t1]
 View(kind, id, ok, stop, attempts, lastk, cause, lexc, lres, next, own) ==
     [kind |-> kind, id |-> id, ok |-> ok, stop |-> stop, attempts |-> attempts, lastk |-> lastk,
      cause |-> cause, lexc |-> lexc, lres |-> lres, next |-> next, own |-> own]
